@@ -150,7 +150,9 @@ def guard(desc, J: np.ndarray, dname: str, orders=None):
             return "imtlg_rank_ambiguous"
         d = np.linalg.norm(J, axis=1)
         v = np.linalg.pinv(G, rcond=float(cut / svG[0])) @ d
-        if abs(v.sum()) < 1e-3 * np.abs(v).sum():
+        # IMTL-G divides v by its sum: not judged when the sum nearly cancels, or when v itself vanishes (d in the null space of a
+        # rank-deficient Gramian, e.g. J = [[1], [-1]]: v is pure rounding noise and v / sum(v) is arbitrary)
+        if abs(v.sum()) < 1e-3 * max(np.abs(v).sum(), np.abs(d).sum() / svG[0]):
             return "imtlg_weight_sum_near_zero"
         return None
     if name == "ConFIG":
